@@ -90,7 +90,7 @@ def assemble {α : Type} (labels : List Nat) (shares : List (Nat × List α)) : 
     | some vs => vs[(labels.take i).count l]?
     | none => none
 
-def handle (op : String) (args : List String) (rhs : String) : Verdict :=
+def handleCore (op : String) (args : List String) (rhs : String) : Verdict :=
   match op, args with
   -- dealing with the dealer's column revealed: V = r • G and the shares M·r, exactly
   | "fdeal", [_kind, cn, cols, ms, ls, rs] =>
@@ -180,6 +180,19 @@ def handle (op : String) (args : List String) (rhs : String) : Verdict :=
             toString h ++ ":" ++ renderPts x.C (liftedShareOf x.M x.labels V h)
           spec "shard" ("ok:" ++ render x.C (liftedSecret x.M V) ++ "|" ++ ";".intercalate pks) rhs
       | _, _, _ => .unsupported "args"
+  -- `mpc.NewBasePublicMaterial` / `BasePublicMaterial.UnmarshalCBOR`: the public key and the public
+  -- key shares of every holder are those of the vector the object holds
+  | "fpubmat", [_kind, cn, cols, ms, ls, vs] =>
+    parseCtx cn cols ms ls fun n _ x =>
+      letI := instAddPt x.C; letI := instZeroPt x.C; letI := instSMulPt x.C n
+      match parseList? x.C vs with
+      | some V =>
+        if !(vvLenOk x.M V) then spec "pubmat" "reject" rhs
+        else
+          let pks := (holders x.labels).map fun h =>
+            toString h ++ ":" ++ renderPts x.C (liftedShareOf x.M x.labels V h)
+          spec "pubmat" ("ok:" ++ render x.C (liftedSecret x.M V) ++ "|" ++ ";".intercalate pks) rhs
+      | none => .unsupported "args"
 
   -- ---------------------------------------------------------------- Pedersen
   | "pdeal", [_kind, cn, cols, ms, ls, hs, rgs, rhs'] =>
@@ -250,5 +263,19 @@ def handle (op : String) (args : List String) (rhs : String) : Verdict :=
         else spec "pedersen-openings" (acc a1 ++ "," ++ acc a2) rhs
       | _, _, _, _, _, _, _ => .unsupported "args"
   | _, _ => .unsupported ("C05 op " ++ op)
+
+/-- Lines tagged `<op>@reuse` were produced on an object that had been used before and was then
+changed in place (`c05_reuse.go`); they carry the value the object holds *now*.  The model is
+stateless: the expected result is the one of a fresh object with that value
+(`Props.C05.verify_depends_only_on_current_value`), so the untagged handler decides, and a
+disagreement is reported under the key `stale-state-…` (the library's answer depends on the
+object's history, not on the verification data presented). -/
+def handle (op : String) (args : List String) (rhs : String) : Verdict :=
+  match op.splitOn "@" with
+  | [base, "reuse"] =>
+    match handleCore base args rhs with
+    | .bad k w => .bad ("stale-state-" ++ k) w
+    | v => v
+  | _ => handleCore op args rhs
 
 end BronVerif.Drive.C05
